@@ -595,3 +595,53 @@ def replay_group_by_pipeline(index, ob, seed, saved=None):
         if k != len(keys):
             return _r(True, input=case, observed=f"{k} data rows read back, {len(keys)} expected")
     return _r(False, tried=len(cases))
+
+
+def replay_figure_document(index, ob, seed, saved=None):
+    """Figure documents on the real code: figure i on page i with its own bytes, one page break between consecutive figures, title /
+    footnote / source on exactly the pages their placement option selects."""
+    import itertools
+    import os
+    import re
+    import tempfile
+    from PIL import Image
+    rtf = index.real_module("rtflite")
+    tmp = tempfile.mkdtemp(prefix="pyvc_fig_")
+    try:
+        paths = []
+        for k in range(3):
+            p = os.path.join(tmp, f"f{k}.png")
+            Image.new("RGB", (3 + k, 2 + k), (40 * k, 10, 200)).save(p)
+            paths.append(p)
+        for nfig in (1, 2, 3):
+            for pt, pf, ps in itertools.product(("first", "last", "all"), repeat=3):
+                case = {"figures": nfig, "page_title": pt, "page_footnote": pf, "page_source": ps}
+                if saved is not None and case != saved.get("input", saved):
+                    continue
+                try:
+                    doc = rtf.RTFDocument(rtf_figure=rtf.RTFFigure(figures=paths[:nfig], fig_width=[2.0, 3.0], fig_height=1.5),
+                                          rtf_page=rtf.RTFPage(page_title=pt, page_footnote=pf, page_source=ps), rtf_title=rtf.RTFTitle(text="TTL"),
+                                          rtf_footnote=rtf.RTFFootnote(text="FNT", as_table=False), rtf_source=rtf.RTFSource(text="SRC"))
+                    s = doc.rtf_encode()
+                except Exception as e:
+                    return _r(True, input=case, observed=f"{type(e).__name__}: {e}")
+                pages = re.split(r"\\page(?![a-zA-Z])", s)
+                if len(pages) != nfig:
+                    return _r(True, input=case, observed=f"{len(pages)} pages for {nfig} figures")
+                for i, pg in enumerate(pages):
+                    m = re.search(r"\{\\pict[^ ]* ([0-9a-f\s]+)\}", pg)
+                    data = open(paths[i], "rb").read().hex()
+                    if not m or re.sub(r"\s+", "", m.group(1)) != data:
+                        return _r(True, input=case, observed=f"page {i + 1} does not embed the bytes of figure {i + 1}")
+                    wg = re.search(r"\\picwgoal(\d+)", pg)
+                    want_w = int([2.0, 3.0][min(i, 1)] * 1440)
+                    if not wg or int(wg.group(1)) != want_w:
+                        return _r(True, input=case, observed=f"page {i + 1}: picwgoal {wg.group(1) if wg else None}, expected {want_w}")
+                    for text, opt in (("TTL", pt), ("FNT", pf), ("SRC", ps)):
+                        want = opt == "all" or (opt == "first" and i == 0) or (opt == "last" and i == nfig - 1)
+                        if (text in pg) != want:
+                            return _r(True, input=case, observed=f"page {i + 1} of {nfig}: {text} {'present' if text in pg else 'absent'}, placement {opt!r}")
+        return _r(False)
+    finally:
+        import shutil
+        shutil.rmtree(tmp, ignore_errors=True)
